@@ -112,6 +112,11 @@ class Series:
                              % (len(self._vals), len(self._index)))
         self.name = name
         self._parent_col = None   # set when produced by df[col]: chained assignment detection
+        self._kind_hint = None    # dtype kind of an EMPTY series (comparisons stay boolean)
+        if isinstance(data, np.ndarray):
+            self._kind_hint = data.kind
+        elif isinstance(data, Series):
+            self._kind_hint = data._kind_hint
 
     # --- basics
     def __len__(self):
@@ -143,7 +148,7 @@ class Series:
     def _to_array(self):
         k = _col_kind(self._vals)
         if k == 'O' and not self._vals:
-            k = 'f'
+            k = self._kind_hint or 'f'
         a = np.ndarray._from_flat(list(self._vals), (len(self._vals),), k)
         return a
 
@@ -262,7 +267,7 @@ class Series:
             raise ModelGap("Series op DataFrame")
         return [o] * len(self._vals)
 
-    def _binop(self, o, f, rev=False, name=None):
+    def _binop(self, o, f, rev=False, name=None, kind=None):
         if isinstance(o, DataFrame):
             return NotImplemented
         ov = self._align(o)
@@ -271,7 +276,9 @@ class Series:
         else:
             vals = [f(a, b) for a, b in zip(self._vals, ov)]
         nm = self.name if not isinstance(o, Series) or o.name == self.name else None
-        return Series(vals, list(self._index), nm)
+        r = Series(vals, list(self._index), nm)
+        r._kind_hint = kind or self._kind_hint
+        return r
 
     def __add__(self, o):
         return self._binop(o, np._add)
@@ -319,22 +326,22 @@ class Series:
     __ror__ = __or__
 
     def __lt__(self, o):
-        return self._binop(o, lambda a, b: a < b)
+        return self._binop(o, lambda a, b: a < b, kind='b')
 
     def __le__(self, o):
-        return self._binop(o, lambda a, b: a <= b)
+        return self._binop(o, lambda a, b: a <= b, kind='b')
 
     def __gt__(self, o):
-        return self._binop(o, lambda a, b: a > b)
+        return self._binop(o, lambda a, b: a > b, kind='b')
 
     def __ge__(self, o):
-        return self._binop(o, lambda a, b: a >= b)
+        return self._binop(o, lambda a, b: a >= b, kind='b')
 
     def __eq__(self, o):
-        return self._binop(o, np._eq)
+        return self._binop(o, np._eq, kind='b')
 
     def __ne__(self, o):
-        return self._binop(o, np._ne)
+        return self._binop(o, np._ne, kind='b')
 
     __hash__ = None
 
@@ -610,6 +617,7 @@ class DataFrame:
     def _series(self, c):
         s = Series(list(self._cols[c]), list(self._index), c)
         s._parent_col = (self, c)
+        s._kind_hint = self.__dict__.get('_kinds', {}).get(c)
         return s
 
     def __getattr__(self, name):
@@ -650,8 +658,11 @@ class DataFrame:
         raise KeyError(key)
 
     def _take(self, sel):
-        return DataFrame._make({c: [v[i] for i in sel] for c, v in self._cols.items()},
-                               [self._index[i] for i in sel])
+        r = DataFrame._make({c: [v[i] for i in sel] for c, v in self._cols.items()},
+                            [self._index[i] for i in sel])
+        # an emptied frame keeps the dtype kinds of its columns
+        r._kinds = {c: (_col_kind(v) if v else self.__dict__.get('_kinds', {}).get(c)) for c, v in self._cols.items()}
+        return r
 
     def __setitem__(self, key, value):
         if not isinstance(key, str):
